@@ -22,7 +22,7 @@ RULE = (
     "documents (4 detector types x exposure/observation, every field in range or unset, probe pipelines with arbitrary "
     "arguments, readout schedules in 12 renderings, parameter values as lists or numpy expressions), dumps them as YAML with "
     "permuted keys, loads them and compares every attribute with the document and the run result with objects built in "
-    "Python. Part 'count': documents with 0 or >=2 running modes / detectors must be refused. Non-trivial: a boundary or "
+    "Python. Part 'count' (exhaustive): every subset of the three running modes x every subset of the four detectors other than one of each, and every pair in which the second section has no body, must be refused. Non-trivial: a boundary or "
     "out-of-range value, or a document with >=2 populated groups; distinct by canonical JSON."
 )
 ASSUMPTIONS = [
@@ -317,12 +317,22 @@ def body_docs(case, rec):
 
 # ------------------------------------------------------------------ mode / detector count
 def count_cases():
+    import itertools
+
+    M, D = ["exposure", "observation", "calibration"], ["CCD", "CMOS", "MKID", "APD"]
     out = []
-    for modes in ([], ["exposure", "observation"], ["exposure", "calibration"], ["exposure", "observation", "calibration"], ["exposure"]):
-        for dets in ([], ["CCD", "CMOS"], ["MKID", "APD"], ["CCD", "CMOS", "MKID", "APD"], ["CCD"]):
-            if len(modes) == 1 and len(dets) == 1:
-                continue
-            out.append({"modes": modes, "dets": dets})
+    for km in range(len(M) + 1):
+        for modes in itertools.combinations(M, km):
+            for kd in range(len(D) + 1):
+                for dets in itertools.combinations(D, kd):
+                    if len(modes) == 1 and len(dets) == 1:
+                        continue
+                    out.append({"modes": list(modes), "dets": list(dets)})
+    # a second section that is present but has no body (`observation:` with everything below it commented out) is a second section all the same
+    for a, b in itertools.permutations(M, 2):
+        out.append({"modes": [a, b], "dets": ["CCD"], "empty": [b]})
+    for a, b in itertools.permutations(D, 2):
+        out.append({"modes": ["exposure"], "dets": [a, b], "empty": [b]})
     return out
 
 
@@ -347,6 +357,12 @@ def body_count(case, rec):
                                   "target_fit_range": [0, 3, 0, 3], "result_fit_range": [0, 3, 0, 3]}
     for t in case["dets"]:
         doc.update(detector_yaml_dict(simple_spec(t, row=3, col=3)))
+    for name in case.get("empty", []):
+        key = name if name in doc else {"CCD": "ccd_detector", "CMOS": "cmos_detector", "MKID": "mkid_detector", "APD": "apd_detector"}[name]
+        assert key in doc
+        doc[key] = None
+    if case.get("empty"):
+        rec.cls("second_section_without_body")
     path = rec.tmp / "doc.yaml"
     path.write_text(yaml.safe_dump(doc, sort_keys=False))
     exc = rec.raises("ambiguous_document_accepted", lambda: pyxel.load(path), detail=f"modes={case['modes']} detectors={case['dets']}")
